@@ -976,6 +976,9 @@ static void countStatus(const std::string& pfx, const std::string& outcome)
 }
 
 // ------------------------------------------------------------------ part det
+// two objects with the same history: everything except the component names (get*Name() report the transient internal
+// binding - e.g. "none" after a re-solve without preprocessing - which a copy legitimately re-derives from the parameters)
+static const char* TWIN_GROUPS = "lp par seed basis status sol ratlp ratsol stat";
 static Verdict runDet(const Case& c)
 {
    Verdict v;
@@ -1009,7 +1012,7 @@ static Verdict runDet(const Case& c)
    if(ra != rb) v.fail("determinism: two fresh objects given the same LP, parameters and seed end differently: " + ra + " vs " + rb);
    else
    {
-      std::string d = firstDiff(oa, ob, nullptr, "A", "B");
+      std::string d = firstDiff(oa, ob, TWIN_GROUPS, "A", "B");
       if(!d.empty()) v.fail("determinism: two fresh objects given the same LP, parameters and seed differ in " + d);
    }
    if(v.ok)
@@ -1040,7 +1043,7 @@ static Verdict runDet(const Case& c)
          if(ra3 != ra2) v.fail("determinism: third solve after clearBasis() ends differently from the second solve after clearBasis(): " + ra2 + " vs " + ra3);
          else
          {
-            std::string d = firstDiff(oa2, oa3, nullptr, "second", "third");
+            std::string d = firstDiff(oa2, oa3, TWIN_GROUPS, "second", "third");
             if(!d.empty()) v.fail("determinism: third solve after clearBasis() differs from the second solve after clearBasis() in " + d);
          }
       }
@@ -1052,7 +1055,7 @@ static Verdict runDet(const Case& c)
          else if(ra2 != ra) v.fail("determinism: re-solve after clearBasis() ends differently from the first solve: " + ra + " vs " + ra2);
          else
          {
-            std::string d = firstDiff(oa, oa2, nullptr, "first", "second");
+            std::string d = firstDiff(oa, oa2, TWIN_GROUPS, "first", "second");
             if(!d.empty()) v.fail("determinism: re-solve after clearBasis() differs from the first solve in " + d);
          }
       }
@@ -1066,9 +1069,6 @@ static Verdict runDet(const Case& c)
 
 // ------------------------------------------------------------------ part copy
 static const char* EQ_GROUPS = "lp par basis status sol ratlp ratsol";   // what a copy must share with its source (statement)
-// two objects with the same history: everything except the component names (get*Name() report the transient internal
-// binding - e.g. "none" after a re-solve without preprocessing - which a copy legitimately re-derives from the parameters)
-static const char* TWIN_GROUPS = "lp par seed basis status sol ratlp ratsol stat";
 
 static Verdict runCopy(const Case& c)
 {
@@ -1124,7 +1124,7 @@ static Verdict runCopy(const Case& c)
    }
    Obs oa = observe(*A), ot = observe(*T);
    {
-      std::string d = firstDiff(oa, ot, nullptr, "A", "twin");
+      std::string d = firstDiff(oa, ot, TWIN_GROUPS, "A", "twin");
       if(!d.empty())
       {
          v.fail("determinism: two objects with the same history before any copy differ in " + d);
